@@ -4,8 +4,8 @@
    own helpers (strings of the path parts, always-applicable key / type conditions and their text) and compared with
    to_tree on every generated schema (flat, nested, sub-tree root); the theorems at the end are about that model. *)
 From Coq Require Import ZArith NArith List Bool String Permutation.
-From Valida Require Import Py Html Tree.
-From Valida.Proofs Require Import C20Proof TreeProof.
+From Valida Require Import Py Defs Cond Html Tree TreeCond.
+From Valida.Proofs Require Import C20Proof TreeProof TreeCondProof.
 Import ListNotations.
 Local Open Scope string_scope.
 
@@ -102,3 +102,46 @@ Proof. exact T2_each_rule_once_subtree. Qed.
 
 Print Assumptions C20_tree_each_rule_once. Print Assumptions C20_tree_parents. Print Assumptions C20_tree_flat_nested_same_nodes.
 Print Assumptions C20_tree_required. Print Assumptions C20_tree_total. Print Assumptions C20_tree_subtree.
+
+(* ---- from the CONDITION of a rule to the facts the assembly uses (TreeCond.v: flatten and the always-applicable helpers) ---- *)
+
+(* a condition's key conditions always apply exactly when every operator of the tree is `and` *)
+Theorem C20_always_applicable_iff_all_and : forall (c : cond pyval),
+  always_applicable c = all_and c /\ fst (flatten c) = leaves c.
+Proof. intro c. split; [exact (always_applicable_all_and pyval c) | exact (flatten_leaves pyval c)]. Qed.
+
+(* which (key, required?) facts a condition contributes *)
+Theorem C20_key_facts : forall (c : cond pyval) k b,
+  In (k, b) (key_facts c) <->
+  all_and c = true /\ exists l, In l (leaves c) /\ In k (l_args l) /\
+    ((l_call l = "required_keys" /\ b = true) \/ (l_call l = "allowed_keys" /\ b = false)).
+Proof. exact (key_facts_spec pyval). Qed.
+
+(* the order and association of the operands of a condition do not matter *)
+Theorem C20_key_facts_order_independent : forall (c c' : cond pyval),
+  reorder pyval c c' -> always_applicable c = always_applicable c' /\ Permutation (key_facts c) (key_facts c').
+Proof. intros c c' H. split; [exact (reorder_always_applicable pyval c c' H) | exact (reorder_key_facts pyval c c' H)]. Qed.
+
+(* END TO END: a key is flagged required exactly when a rule at its parent path has an all-and condition one of whose
+   required_keys leaves names it; not flagged at all exactly when no always-applicable key condition names it; flagged
+   "not required" exactly when only always-applicable allowed_keys conditions name it.  [kstr] is str() of the key as a
+   path part (a fact supplied per case). *)
+Theorem C20_tree_required_from_conditions : forall (kstr : pyval -> option string) (rcs : list (rfacts * cond pyval)) l,
+  Forall (linked_fn kstr) rcs ->
+  flat_tree [] [] (map fst rcs) = Ok l ->
+  forall d k s, In d l -> dget "path_str" d = Some (VTuple (map VStr (k ++ [s]))) ->
+    (dget "required" d = Some (VBool true) <->
+       exists rf c key l0, In (rf, c) rcs /\ rf_path_str rf = k /\ all_and c = true /\ In l0 (leaves c) /\
+          l_call l0 = "required_keys" /\ In key (l_args l0) /\ kstr key = Some s)
+    /\ (dget "required" d = None <->
+       forall rf c key l0, In (rf, c) rcs -> rf_path_str rf = k -> all_and c = true -> In l0 (leaves c) ->
+          (l_call l0 = "required_keys" \/ l_call l0 = "allowed_keys") -> In key (l_args l0) -> kstr key <> Some s)
+    /\ (dget "required" d = Some (VBool false) <->
+       (exists rf c key l0, In (rf, c) rcs /\ rf_path_str rf = k /\ all_and c = true /\ In l0 (leaves c) /\
+          l_call l0 = "allowed_keys" /\ In key (l_args l0) /\ kstr key = Some s)
+       /\ ~ (exists rf c key l0, In (rf, c) rcs /\ rf_path_str rf = k /\ all_and c = true /\ In l0 (leaves c) /\
+          l_call l0 = "required_keys" /\ In key (l_args l0) /\ kstr key = Some s)).
+Proof. exact C20_required_from_conditions_fn. Qed.
+
+Print Assumptions C20_always_applicable_iff_all_and. Print Assumptions C20_key_facts.
+Print Assumptions C20_key_facts_order_independent. Print Assumptions C20_tree_required_from_conditions.
